@@ -69,6 +69,19 @@ def scan(ctx, repo, fname, expect_guard, expect_elem):
     if fi is None:
         raise AnalysisError(f"anchor vanished: NameParser.{fname}")
     ctx.analysed(fi)
+    # the candidate collection must count TOKENS: a set collapses repeated tokens ('ico_15_15' would no longer be rejected)
+    import ast as _ast
+    for n in _ast.walk(fi.node):
+        if isinstance(n, _ast.Assign) and isinstance(n.targets[0], _ast.Name) and n.targets[0].id == "candidates" or \
+                (isinstance(n, _ast.Assign) and isinstance(n.value, (_ast.SetComp, _ast.Set))):
+            v = n.value
+            is_set = isinstance(v, (_ast.SetComp, _ast.Set)) or (isinstance(v, _ast.Call) and isinstance(v.func, _ast.Name) and v.func.id in ("set", "frozenset"))
+            ctx.instance("TABLE")
+            if is_set:
+                ctx.violate("TABLE", f"C17.scan.{fname}.multiset", f"{fname} collects the matching tokens in a set: repeated tokens with the same "
+                            "value collapse, so a name with two (equal) numbers / algorithm tokens is accepted instead of rejected", fi.where,
+                            src(n)[:160], witness="e.g. 'ico_15_15' -> ico_15, 'cube4D_8_08' -> cube4D_8")
+                return
     outcomes = {}
     skeleton_ok = None
     classes = [(0, False, "no matching token", "None"), (1, False, "exactly one matching token", "item0"),
